@@ -139,6 +139,9 @@ impl Cfg {
 }
 
 pub const TOPICS: [&str; 3] = ["t0", "t/1", "topic/2"];
+pub const PAD_AT_LIMIT_MINUS_1: u16 = 0xfffd;
+pub const PAD_AT_LIMIT: u16 = 0xfffe;
+pub const PAD_AT_LIMIT_PLUS_1: u16 = 0xffff;
 
 #[derive(Clone, Debug, Serialize, Deserialize, PartialEq)]
 pub enum Op {
@@ -184,6 +187,8 @@ pub enum Op {
     PeerRaw { bytes: Vec<u8> },
     /// peer frames are delivered in buffers of n bytes (0 = one frame per buffer)
     SetChunk { n: u16 },
+    /// the following connections are negotiated with / without properties and keep-alive
+    SetAlt { on: bool },
     /// stop workload and faults, complete every exchange, check quiescence
     Drain,
     /// the transport is lost and the application forgets everything a crash would lose:
@@ -219,6 +224,9 @@ pub struct Solo {
     pub faults: std::collections::BTreeMap<&'static str, u64>,
     pub connects: u32,
     pub ops_done: usize,
+    /// the next connections announce no properties and keep-alive 0 (connection-scoped
+    /// state of the previous connection must not fill the gaps)
+    pub alt: bool,
 }
 
 impl Solo {
@@ -241,6 +249,7 @@ impl Solo {
             faults: Default::default(),
             connects: 0,
             ops_done: 0,
+            alt: false,
         }
     }
 
@@ -276,7 +285,7 @@ impl Solo {
 
     /// the peer can transmit: a transport exists and E has not asked to close it
     fn peer_up(&self) -> bool {
-        self.w.m.st != St::Disc && !self.w.want_close
+        (self.w.m.st != St::Disc || (self.w.read_past_close && self.w.lenient && self.w.want_close)) && !self.w.stopped_reading()
     }
 
     fn fault(&mut self, k: &'static str) {
@@ -347,7 +356,7 @@ impl Solo {
     }
 
     fn peer_bytes(&mut self, bytes: &[u8]) {
-        if self.w.want_close {
+        if self.w.stopped_reading() {
             return;
         }
         let n = if self.chunk == 0 { bytes.len().max(1) } else { self.chunk as usize };
@@ -359,7 +368,7 @@ impl Solo {
             for l in lists {
                 self.handle(&l);
             }
-            if self.w.failed() || self.w.want_close {
+            if self.w.failed() || self.w.stopped_reading() {
                 break;
             }
         }
@@ -372,8 +381,28 @@ impl Solo {
     fn payload(&mut self, pad: u16) -> Vec<u8> {
         self.tag += 1;
         let mut s = format!("m{}", self.tag).into_bytes();
-        s.extend(std::iter::repeat(b'x').take(pad as usize));
+        if pad < PAD_AT_LIMIT_MINUS_1 {
+            s.extend(std::iter::repeat(b'x').take(pad as usize));
+        }
         s
+    }
+
+    /// symbolic pads: size the packet to the limit the receiver announced, or one off
+    fn pad_to_limit(&self, p: &mut Pkt, pad: u16, limit: Option<u32>) {
+        if pad < PAD_AT_LIMIT_MINUS_1 {
+            return;
+        }
+        let Some(l) = limit else { return };
+        let want = match pad {
+            PAD_AT_LIMIT => l as i64,
+            PAD_AT_LIMIT_PLUS_1 => l as i64 + 1,
+            _ => l as i64 - 1,
+        };
+        let base = wire::encode(p, self.w.idw).len() as i64;
+        let extra = want - base;
+        if extra > 0 && extra < 120 {
+            p.payload.extend(std::iter::repeat(b'x').take(extra as usize));
+        }
     }
 
     fn do_close(&mut self) {
@@ -408,7 +437,11 @@ impl Solo {
                 if self.w.want_close {
                     return;
                 }
-                let p = self.cfg.connect_pkt(*clean);
+                let mut p = self.cfg.connect_pkt(*clean);
+                if self.alt {
+                    p.props.clear();
+                    p.keep_alive = 0;
+                }
                 let fresh = self.w.m.st == St::Disc;
                 let before = self.w.step;
                 if self.cfg.as_client {
@@ -439,7 +472,10 @@ impl Solo {
                 if self.cfg.as_client && self.w.m.st == St::Disc && !self.cfg.lenient {
                     return;
                 }
-                let p = self.cfg.connack_pkt(*sp, *rc);
+                let mut p = self.cfg.connack_pkt(*sp, *rc);
+                if self.alt {
+                    p.props.clear();
+                }
                 let was = self.w.m.st;
                 if self.cfg.as_client {
                     self.peer_send(&p);
@@ -472,6 +508,8 @@ impl Solo {
                     let Some(id) = self.take_id() else { return };
                     p.id = Some(id);
                 }
+                let lim = self.w.m.mps_send;
+                self.pad_to_limit(&mut p, *pad, lim);
                 let evs = if p.id.is_some() { self.app_send_with_id(&p) } else { self.app_send(&p) };
                 if *fail {
                     // the transport rejects the write: honour release_packet_id_if_send_error, then the transport is dead
@@ -604,6 +642,8 @@ impl Solo {
                     }
                 }
                 p.payload = self.payload(*pad);
+                let lim = self.w.m.mps_recv;
+                self.pad_to_limit(&mut p, *pad, lim);
                 if *qos == 2 && !self.peer_q2.contains(id) {
                     self.peer_q2.push(*id);
                 }
@@ -805,6 +845,11 @@ impl Solo {
             Op::SetChunk { n } => {
                 self.chunk = *n;
             }
+            Op::SetAlt { on } => {
+                if self.w.m.st == St::Disc {
+                    self.alt = *on;
+                }
+            }
             Op::Drain => self.drain(),
             Op::Forget => {
                 if self.w.m.st != St::Disc || self.w.want_close {
@@ -989,8 +1034,11 @@ pub fn gen_op(s: &Solo, r: &mut Rng, prof: &GenProfile) -> Op {
             if x < 94 {
                 return Op::AppPubrel { nth: r.below(4) as u8 };
             }
-            if x < 97 {
+            if x < 96 {
                 return if r.chance(1, 2) { Op::Sub } else { Op::Acquire };
+            }
+            if x < 98 && m.conn_no > 0 {
+                return Op::SetAlt { on: !s.alt };
             }
             return Op::Erase { nth: r.below(4) as u8 };
         }
@@ -1047,7 +1095,7 @@ pub fn gen_op(s: &Solo, r: &mut Rng, prof: &GenProfile) -> Op {
             } else if v5 && r.chance(1, 25) {
                 alias = if r.chance(1, 2) { 0x81 } else { 1 };
             }
-            let pad = if r.chance(1, 4) { r.below(24) as u16 } else { 0 };
+            let pad = if m.mps_send.is_some() && r.chance(1, 4) { *r.pick(&[PAD_AT_LIMIT_MINUS_1, PAD_AT_LIMIT, PAD_AT_LIMIT, PAD_AT_LIMIT_PLUS_1]) } else if r.chance(1, 4) { r.below(24) as u16 } else { 0 };
             let fail = cfg.f_writefail && r.chance(1, 30);
             Op::Pub { qos, topic, alias, pad, fail }
         }
@@ -1081,7 +1129,8 @@ pub fn gen_op(s: &Solo, r: &mut Rng, prof: &GenProfile) -> Op {
             } else if v5 && r.chance(1, 30) {
                 alias = 1;
             }
-            Op::PeerPub { qos, id, dup, topic: r.below(3) as u8, alias, pad: if r.chance(1, 5) { r.below(24) as u16 } else { 0 } }
+            let pad = if m.mps_recv.is_some() && r.chance(1, 4) { *r.pick(&[PAD_AT_LIMIT_MINUS_1, PAD_AT_LIMIT, PAD_AT_LIMIT, PAD_AT_LIMIT_PLUS_1]) } else if r.chance(1, 5) { r.below(24) as u16 } else { 0 };
+            Op::PeerPub { qos, id, dup, topic: r.below(3) as u8, alias, pad }
         }
         5 => Op::AppAck { nth: r.below(8) as u8, err: r.chance(1, 8) },
         6 => match r.below(6) {
@@ -1132,7 +1181,7 @@ pub fn gen_cfg(r: &mut Rng, faults: bool) -> Cfg {
     c.auto_ping = r.chance(1, 2);
     c.offline = r.chance(1, 6);
     c.vectored = r.chance(1, 8);
-    c.ka = *r.pick(&[0u16, 0, 10, 60]);
+    c.ka = *r.pick(&[0u16, 0, 10, 60, 1, 21846, 65535]);
     c.pingresp_to_ms = *r.pick(&[0u64, 0, 5000]);
     if v5 {
         c.auto_map = r.chance(1, 4);
